@@ -17,7 +17,11 @@ func MakeHostnameRoutingHandler(apiEndpoint string, apiHandler http.Handler, web
 			}
 		}
 
-		if host == apiEndpoint || strings.HasSuffix(host, apiSuffix) {
+		isAPI := host == apiEndpoint || strings.HasSuffix(host, apiSuffix)
+		isWebsite := host == websiteEndpoint || strings.HasSuffix(host, websiteSuffix)
+		// When one endpoint is a sub-domain of the other (the defaults are "localhost" and
+		// "s3-website.localhost") the more specific endpoint wins.
+		if isAPI && !(isWebsite && len(websiteEndpoint) > len(apiEndpoint)) {
 			apiHandler.ServeHTTP(w, r)
 			return
 		}
